@@ -75,6 +75,10 @@ def variant_items():
                     if lead.startswith("2024-") and ident:
                         continue  # one date-shaped first word is enough
                     out.append([pre + " " + (ident + " " if ident else "") + lead + " lookalike first word"])
+    # two blanks between the kind and a Pn word: by the grammar that word is body, not priority
+    for kind in "ox<":
+        out.append([kind + "  P1 two blanks before a priority-shaped word"])
+        out.append([kind + "  P1 2024-02-03 and a date after it"])
     # nothing after the prefix on the first line: the whole body is on continuation lines
     for pre in ("-", "o", "o P1", "x"):
         out.append([pre + " ", "  body starts on the second line"])
